@@ -37,7 +37,8 @@ type N struct {
 	Sym  string `json:"sym,omitempty"` // tree id: resolved symbol (PatternFilter)
 	Sel  *N     `json:"sel,omitempty"`
 	Lit  string `json:"lit,omitempty"`
-	W    string `json:"w,omitempty"` // tree wrapper kind (PatternFilter): "paren" | "stmt"
+	Ty   string `json:"ty,omitempty"` // generic node (PatternFilter): node type name
+	Fs   []*N   `json:"fs,omitempty"` // generic node: fields
 }
 
 func Decode(raw json.RawMessage) (*N, error) {
@@ -100,7 +101,7 @@ func (r *Renderer) pat(p *N, node bool) string {
 		return p.Nm
 	case "bind":
 		// x@<node> is only available below the root and only if the operand has a node form
-		if !node && r.sugar() && p.Sub.K != "str" {
+		if !node && r.sugar() && p.Sub.K != "str" && p.Sub.K != "symname" {
 			return p.Nm + "@" + r.pat(p.Sub, true)
 		}
 		return fmt.Sprintf("(Binding %q %s)", p.Nm, r.pat(p.Sub, false))
@@ -145,6 +146,12 @@ func (r *Renderer) pat(p *N, node bool) string {
 	case "not":
 		return "(Not " + r.pat(p.A, false) + ")"
 	// ---- PatternFilter kinds
+	case "node":
+		parts := []string{"(" + p.Ty}
+		for _, f := range p.Fs {
+			parts = append(parts, r.pat(f, false))
+		}
+		return strings.Join(parts, " ") + ")"
 	case "sel":
 		return "(SelectorExpr " + r.pat(p.X, false) + " " + r.pat(p.Sel, false) + ")"
 	case "un":
